@@ -1,8 +1,256 @@
-/- PyodaModel.Intervals — placeholder until the area is modelled. -/
+/-
+  PyodaModel.Intervals — DateInterval (pyoda_time/_date_interval.py) and Interval (pyoda_time/_interval.py).
+
+  A `LocalDate` enters the model as (calendar ordinal, day number since the Unix epoch); the order of
+  dates of one calendar is the order of their day numbers (`LocalDate.__trusted_compare_to`; tied to the
+  code by the harness oracle, and by C01 for the calendars themselves).  Comparing dates of different
+  calendars raises `ValueError`, as `_Preconditions._check_argument` does.
+  `DateInterval.__iter__` calls `start.plus_days(k)`; its range check is not modelled (every date it
+  builds lies between `start` and `end`, both valid dates).
+  Instants are the `Instant` of PyodaModel.Elapsed, including the two sentinels
+  `Instant._before_min_value()` / `_after_max_value()`.
+-/
 import PyodaModel.Prelude
+import PyodaModel.Elapsed
 
 namespace Pyoda.Intervals
+open Pyoda
 
-def handle (_toks : List String) : Option String := none
+structure LDate where
+  cal : Nat
+  day : Int
+  deriving DecidableEq, Repr, Inhabited
+
+namespace LDate
+/-- `LocalDate.__lt__` -/
+def lt (a b : LDate) : R Bool :=
+  if a.cal ≠ b.cal then .error .valueError else .ok (decide (a.day < b.day))
+/-- `LocalDate.__le__` -/
+def le (a b : LDate) : R Bool :=
+  if a.cal ≠ b.cal then .error .valueError else .ok (decide (a.day ≤ b.day))
+/-- `LocalDate.__gt__` -/
+def gt (a b : LDate) : R Bool :=
+  if a.cal ≠ b.cal then .error .valueError else .ok (decide (a.day > b.day))
+/-- `LocalDate.min(x, y)`: calendar check, then Python `min(x, y)` (= `y if y < x else x`). -/
+def min (x y : LDate) : R LDate :=
+  if x.cal ≠ y.cal then .error .valueError else do
+    let b ← lt y x
+    .ok (if b then y else x)
+/-- `LocalDate.max(x, y)`: calendar check, then Python `max(x, y)` (= `y if y > x else x`). -/
+def max (x y : LDate) : R LDate :=
+  if x.cal ≠ y.cal then .error .valueError else do
+    let b ← gt y x
+    .ok (if b then y else x)
+/-- `Period.days_between(start, end)` -/
+def daysBetween (a b : LDate) : R Int :=
+  if a.cal ≠ b.cal then .error .valueError else .ok (b.day - a.day)
+end LDate
+
+structure DateInterval where
+  s : LDate
+  e : LDate
+  deriving DecidableEq, Repr, Inhabited
+
+namespace DateInterval
+
+/-- `DateInterval.__init__` -/
+def new (s e : LDate) : R DateInterval :=
+  if s.cal ≠ e.cal then .error .valueError else do
+    let b ← LDate.lt e s
+    if b then .error .valueError else .ok ⟨s, e⟩
+
+/-- `__contains__(LocalDate)`: chained comparison `start <= item <= end` (short-circuits). -/
+def containsDate (I : DateInterval) (d : LDate) : R Bool :=
+  if d.cal ≠ I.s.cal then .error .valueError else do
+    let a ← LDate.le I.s d
+    if a then LDate.le d I.e else .ok false
+
+/-- `__contains__(DateInterval)`: `__validate_interval`, then `start <= item.start and item.end <= end`. -/
+def containsInterval (I J : DateInterval) : R Bool :=
+  if J.s.cal ≠ I.s.cal then .error .valueError else do
+    let a ← LDate.le I.s J.s
+    if a then LDate.le J.e I.e else .ok false
+
+/-- `__len__`: `Period._internal_days_between(start, end) + 1` -/
+def len (I : DateInterval) : Int := (I.e.day - I.s.day) + 1
+
+/-- `__eq__` -/
+def beq (I J : DateInterval) : Bool := decide (I.s = J.s) && decide (I.e = J.e)
+
+/-- `__and__` -/
+def inter (A B : DateInterval) : R (Option DateInterval) := do
+  let b1 ← containsInterval A B
+  if b1 then .ok (some B) else
+  let b2 ← containsInterval B A
+  if b2 then .ok (some A) else
+  let b3 ← containsDate B A.s
+  if b3 then (do let r ← new A.s B.e; .ok (some r)) else
+  let b4 ← containsDate B A.e
+  if b4 then (do let r ← new B.s A.e; .ok (some r)) else
+  .ok none
+
+/-- `__or__` -/
+def union (A B : DateInterval) : R (Option DateInterval) :=
+  if B.s.cal ≠ A.s.cal then .error .valueError else do
+    let st ← LDate.min A.s B.s
+    let en ← LDate.max A.e B.e
+    let db ← LDate.daysBetween st en
+    if db ≥ len A + len B then .ok none else do
+      let r ← new st en
+      .ok (some r)
+
+/-- `__iter__`: `k = 0; while (date := start.plus_days(k)) != end: yield date; k += 1` then `yield end`.
+    `fuel` bounds the number of loop tests; running out of fuel is `.error .other` (non-termination). -/
+def iterLoop (I : DateInterval) : Nat → Int → R (List LDate)
+  | 0, _ => .error .other
+  | fuel + 1, k =>
+    let date : LDate := ⟨I.s.cal, I.s.day + k⟩
+    if date = I.e then .ok [I.e] else do
+      let rest ← iterLoop I fuel (k + 1)
+      .ok (date :: rest)
+
+def iter (I : DateInterval) (fuel : Nat) : R (List LDate) := iterLoop I fuel 0
+
+end DateInterval
+
+/-! ## Interval -/
+
+structure Interval where
+  s : Instant
+  e : Instant
+  deriving DecidableEq, Repr, Inhabited
+
+namespace Interval
+
+/-- `Interval.__init__(start, end)`; `none` = Python `None`. -/
+def new (s e : Option Instant) : R Interval :=
+  let s' := match s with | none => Instant.beforeMin | some x => x
+  let e' := match e with | none => Instant.afterMax | some x => x
+  if Duration.lt e'.dur s'.dur then .error .valueError else .ok ⟨s', e'⟩
+
+def hasStart (I : Interval) : Bool := I.s.isValid
+def hasEnd (I : Interval) : Bool := I.e.isValid
+/-- `start`: `_check_state(self.__start._is_valid, …)` raises `RuntimeError`. -/
+def start (I : Interval) : R Instant := if I.s.isValid then .ok I.s else .error .runtimeError
+def «end» (I : Interval) : R Instant := if I.e.isValid then .ok I.e else .error .runtimeError
+/-- `duration`: `self.end - self.start` (the end is evaluated first) -/
+def duration (I : Interval) : R Duration := do
+  let e ← I.end
+  let s ← I.start
+  Instant.minus e s
+/-- `__contains__`: `start <= instant < end` -/
+def contains (I : Interval) (t : Instant) : Bool := Duration.le I.s.dur t.dur && Duration.lt t.dur I.e.dur
+/-- `__iter__`: the two optional bounds -/
+def bounds (I : Interval) : Option Instant × Option Instant :=
+  (if I.s.isValid then some I.s else none, if I.e.isValid then some I.e else none)
+/-- `__eq__` -/
+def beq (I J : Interval) : Bool := Duration.beq I.s.dur J.s.dur && Duration.beq I.e.dur J.e.dur
+
+end Interval
+
+/-! ## line protocol -/
+
+def showDI : R (Option DateInterval) → String :=
+  showR (fun o => match o with
+    | none => "none"
+    | some I => showInts [I.s.cal, I.s.day, I.e.cal, I.e.day])
+
+def showB : R Bool → String := showR showBool
+
+def showOptInst : Option Instant → String
+  | none => "none"
+  | some i => showInts [i.dur.days, i.dur.nod]
+
+def mkBound (h d n : Int) : Option (Option Instant) :=
+  if h = 1 then some (some ⟨⟨d, n⟩⟩) else if h = 0 then some none else none
+
+def withDI (l : List Int) : Option (DateInterval × List Int) :=
+  match l with
+  | c1 :: s :: c2 :: e :: rest =>
+    if c1 < 0 ∨ c2 < 0 then none else some (⟨⟨c1.toNat, s⟩, ⟨c2.toNat, e⟩⟩, rest)
+  | _ => none
+
+def withIv (l : List Int) : Option (R Interval × List Int) :=
+  match l with
+  | hs :: sd :: sn :: he :: ed :: en :: rest => do
+    let s ← mkBound hs sd sn
+    let e ← mkBound he ed en
+    some (Interval.new s e, rest)
+  | _ => none
+
+def ivProps (I : Interval) : String :=
+  " ".intercalate [showBool I.hasStart, showBool I.hasEnd,
+    showR (fun i => showInts [i.dur.days, i.dur.nod]) I.start,
+    showR (fun i => showInts [i.dur.days, i.dur.nod]) I.end,
+    showR (fun d => showInts [d.days, d.nod]) I.duration,
+    showOptInst I.bounds.1, showOptInst I.bounds.2]
+
+/-- Ops (dates are `cal day`, intervals `cal start cal end` built WITHOUT the constructor check only in
+    `di.new`; every other op first builds its intervals with `DateInterval.new` and replies with its error):
+    `di.new c1 s c2 e`, `di.cont I c d`, `di.sub I J`, `di.len I`, `di.iter I`, `di.and I J`, `di.or I J`,
+    `di.eq I J`; `iv.new B B`, `iv.props B B`, `iv.cont B B d n`, `iv.eq B B B B` with `B = has days nod`. -/
+def handle (toks : List String) : Option String :=
+  match toks with
+  | op :: args => do
+    let l ← parseInts? args
+    match op with
+    | "di.new" => do
+      let (I, rest) ← withDI l
+      if rest ≠ [] then none else
+      some (showR (fun J => showInts [J.s.cal, J.s.day, J.e.cal, J.e.day]) (DateInterval.new I.s I.e))
+    | "di.cont" => do
+      let (I, rest) ← withDI l
+      match rest with
+      | [c, d] => if c < 0 then none else
+        some (showB (do let I ← DateInterval.new I.s I.e; I.containsDate ⟨c.toNat, d⟩))
+      | _ => none
+    | "di.sub" => do
+      let (I, rest) ← withDI l
+      let (J, rest) ← withDI rest
+      if rest ≠ [] then none else
+      some (showB (do let I ← DateInterval.new I.s I.e; let J ← DateInterval.new J.s J.e; I.containsInterval J))
+    | "di.len" => do
+      let (I, rest) ← withDI l
+      if rest ≠ [] then none else
+      some (showR toString (do let I ← DateInterval.new I.s I.e; .ok I.len))
+    | "di.iter" => do
+      let (I, rest) ← withDI l
+      if rest ≠ [] then none else
+      some (showR (fun (l : List LDate) => showInts (l.map (·.day)))
+        (do let I ← DateInterval.new I.s I.e; I.iter (I.len.toNat + 1)))
+    | "di.and" => do
+      let (I, rest) ← withDI l
+      let (J, rest) ← withDI rest
+      if rest ≠ [] then none else
+      some (showDI (do let I ← DateInterval.new I.s I.e; let J ← DateInterval.new J.s J.e; I.inter J))
+    | "di.or" => do
+      let (I, rest) ← withDI l
+      let (J, rest) ← withDI rest
+      if rest ≠ [] then none else
+      some (showDI (do let I ← DateInterval.new I.s I.e; let J ← DateInterval.new J.s J.e; I.union J))
+    | "di.eq" => do
+      let (I, rest) ← withDI l
+      let (J, rest) ← withDI rest
+      if rest ≠ [] then none else
+      some (showB (do let I ← DateInterval.new I.s I.e; let J ← DateInterval.new J.s J.e; .ok (I.beq J)))
+    | "iv.new" => do
+      let (I, rest) ← withIv l
+      if rest ≠ [] then none else
+      some (showR (fun I => showInts [I.s.dur.days, I.s.dur.nod, I.e.dur.days, I.e.dur.nod]) I)
+    | "iv.props" => do
+      let (I, rest) ← withIv l
+      if rest ≠ [] then none else some (showR ivProps I)
+    | "iv.cont" => do
+      let (I, rest) ← withIv l
+      match rest with
+      | [d, n] => some (showB (do let I ← I; .ok (I.contains ⟨⟨d, n⟩⟩)))
+      | _ => none
+    | "iv.eq" => do
+      let (I, rest) ← withIv l
+      let (J, rest) ← withIv rest
+      if rest ≠ [] then none else
+      some (showB (do let I ← I; let J ← J; .ok (I.beq J)))
+    | _ => none
+  | _ => none
 
 end Pyoda.Intervals
